@@ -387,14 +387,20 @@ def mgr_replay(results, scenarios, remote_ids):
 
 
 def run_sys(scenarios, par=24, timeout=600):
-    """Run scenarios in one driver process; on a crash, isolate the crashing scenario(s)."""
+    """Run scenarios in one driver process; on a crash or a hang, isolate the scenario(s) responsible."""
     binary = os.path.join(BIN, "sys")
+    state = {"timeout": timeout}
 
     def batch(scs):
         inp = "\n".join(json.dumps(s) for s in scs) + "\n"
         env = dict(os.environ, SYS_PAR=str(par))
-        p = subprocess.run([binary], input=inp, stdout=subprocess.PIPE, stderr=subprocess.PIPE, text=True,
-                           timeout=timeout, env=env)
+        try:
+            p = subprocess.run([binary], input=inp, stdout=subprocess.PIPE, stderr=subprocess.PIPE, text=True,
+                               timeout=state["timeout"], env=env)
+        except subprocess.TimeoutExpired as ex:
+            state["timeout"] = 120       # isolate with a shorter limit
+            return None, "HANG: the driver process did not finish within %d s (a goroutine of corebgp or a callback is wedged)\n%s" % (
+                ex.timeout, (ex.stderr or "")[-1500:] if isinstance(ex.stderr, str) else "")
         if p.returncode != 0:
             return None, p.stderr
         out = [json.loads(l) for l in p.stdout.splitlines() if l.strip()]
@@ -478,6 +484,15 @@ def cb_wf(res):
             in_handler = False
     if est_open:
         bad.append("OnEstablished without a matching OnClose by the time Close returned")
+    # GetCapabilities once per connection on which an OPEN is sent: never more calls than connections the
+    # peer obtained (successful dials + inbound connections handed to an FSM)
+    evs = res.get("events") or []
+    if any(e["kind"] == "d.result" for e in evs) or any(e["kind"] == "m.enable" for e in evs):
+        got = sum(1 for e in evs if e["kind"] == "d.result" and e["args"][-1] == "true") \
+            + sum(1 for e in evs if e["kind"] == "m.enable" and e["args"][0] == "1" and e["args"][-1] == "true")
+        ncaps = sum(1 for cb in res["cbs"] or [] if cb["name"] == "GetCapabilities" and cb["ph"] == "enter")
+        if ncaps > got:
+            bad.append("GetCapabilities called %d times for %d connections (an OPEN is sent once per connection)" % (ncaps, got))
     return bad
 
 
